@@ -20,9 +20,11 @@ from __future__ import annotations
 from spec import C05_timeloop as TL
 from vc import array as A
 from vc import scene
-from vc.core import SymNum, ctx, v_eq
+from vc.core import PathAbort, SymNum, Undecided, ctx, v_eq
 from vc.harness import Task
 from vc.obl import prove_arrays_equal, sym_int
+
+_ENGINE_EXC = (TL.Unsupported, PathAbort, Undecided)
 
 ID = "C05"
 LEVEL = "proof"
@@ -52,9 +54,10 @@ ASSUMPTIONS = [
     "iteration lemma L7: body^m(body^n(x)) = body^(n+m)(x) (Function.iterate_add_apply); used to join consecutive loop segments whose step counters are proved contiguous",
     "round(): an integer within 1/2 of its argument (any tie-breaking); i*T/k evaluated in exact arithmetic (the float evaluation is covered by the bounded part only)",
     "number of reversible slices k enumerated (quick: 1..8, thorough: 1..40) for the segmented loop's control flow; the partition itself is proved for all k",
+    "bounded part (labelled, not counted as proof): the real float evaluation of the slice boundaries for every 1 <= k <= T, T < 240 (quick) / T < 1200 (thorough)",
     "progress bar disabled (show_progress=False)",
 ]
-MIN_OBLIGATIONS = {"quick": 300, "thorough": 1500}
+MIN_OBLIGATIONS = {"quick": 2500, "thorough": 12000}
 LEVEL_TEXT = (
     "Deductive proof for all total step counts T, grid shapes and states: (1) the slice boundaries of the real _reversible_slice_boundaries "
     "start at 0, end at T and are strictly increasing for ALL 1 <= k <= T (generic index, symbolic T and k); (2) the loops built by the real "
@@ -185,17 +188,10 @@ def _partition_all_k(c, inp):
     c.prove("slice_boundaries/post:integer_boundaries", all(TL._is_int_valued(x) for x in s))
 
 
-def _partition_guard(c, inp):
-    """the guard of reversible_fdtd establishes the precondition of the partition on every
-    non-raising path (k concrete here because the guard precedes Python-level control flow)"""
-    # covered inside the strategy tasks (obligation `reversible/raises_only_when_documented`)
-
-
 def _partition_bounded(lo, hi):
     def body(c, inp):
         import fdtdx.fdtd.fdtd as F
 
-        saved = F.__dict__.get("round")
         for T in range(lo, hi):
             bad = None
             for k in range(1, T + 1):
@@ -204,7 +200,6 @@ def _partition_bounded(lo, hi):
                     bad = {"T": T, "k": k, "boundaries": s[:12]}
                     break
             c.bounded("slice_boundaries/real_floats", bad is None, case={"T": T, "k": f"1..{T}"}, witness={"scalars": bad or {}, "arrays": {}, "notes": {}})
-        del saved
 
     return body
 
@@ -263,7 +258,7 @@ def _strategies(k):
             for name, cfg in cfgs.items():
                 try:
                     res, calls = _run(L, A0, objs, cfg, key)
-                except TL.Unsupported:
+                except _ENGINE_EXC:
                     raise
                 except Exception as e:  # noqa: BLE001
                     documented = name == "reversible" and k - 1 > 0
@@ -305,7 +300,7 @@ def _dispatch_unknown(c, inp):
     with sym_total_steps(T), TL.LoopHarness() as L:
         try:
             _run(L, A0, objs, cfg, _key())
-        except TL.Unsupported:
+        except _ENGINE_EXC:
             raise
         except Exception:  # noqa: BLE001
             raised = True
